@@ -64,6 +64,7 @@ type gen struct {
 	baseNow zcommon.Timestamp
 
 	blobbers   []*prov
+	eblobbers  []*prov // enterprise blobbers (serve enterprise allocations only)
 	validators []*prov
 	clients    []*world.Key // c1..c4
 	assigners  []*assigner
@@ -138,6 +139,20 @@ func Run(a common.Args) {
 		g.traceID = id
 		g.killOK = killEvery > 0 && id%killEvery == 0
 		g.random(id)
+	}
+	// directed scenarios (after the random traces, so that their ids do not move the random ones): the
+	// histories behind the suspected defects DESIGN §7 #18 and #6 and the repeated kill, played to the end
+	if extraInt(a.Extra, "scen", 0) > 0 {
+		for k := 1; k <= 3; k++ {
+			id++
+			if a.Only != 0 && a.Only != id {
+				rc.TraceID = id
+				continue
+			}
+			g.r = common.TraceRand(a.Seed, id)
+			g.traceID = id
+			g.scenario(id, k)
+		}
 	}
 }
 
@@ -234,6 +249,23 @@ func (g *gen) buildBase() {
 			"stake_pool_settings": map[string]interface{}{"delegate_wallet": b.delegate.ID, "num_delegates": 5, "service_charge": p.charge},
 		}, 0), "add_blobber "+b.name)
 		g.must(g.sc(b.delegate, "stake_pool_lock", map[string]interface{}{"provider_type": 3, "provider_id": b.key.ID}, p.stake), "stake "+b.name)
+	}
+	// three enterprise blobbers: paid from the write pool for the time used, no challenge pool
+	for i := 0; i < 3; i++ {
+		b := &prov{name: fmt.Sprintf("e%d", i+1)}
+		b.key = w.NewKey(b.name)
+		b.delegate = w.NewKey(fmt.Sprintf("ed%d", i+1))
+		fund(b.key, 1000)
+		fund(b.delegate, 100000000)
+		g.eblobbers = append(g.eblobbers, b)
+		g.byID[b.key.ID] = b
+		g.must(g.sc(b.key, "add_blobber", map[string]interface{}{
+			"version": "v3", "url": "https://" + b.name + ".example.org", "is_enterprise": true,
+			"terms":    map[string]interface{}{"read_price": 16384 * 5, "write_price": 3000000 + 1000000*uint64(i)},
+			"capacity": 512 * MB,
+			"stake_pool_settings": map[string]interface{}{"delegate_wallet": b.delegate.ID, "num_delegates": 5, "service_charge": 0.1},
+		}, 0), "add_blobber "+b.name)
+		g.must(g.sc(b.delegate, "stake_pool_lock", map[string]interface{}{"provider_type": 3, "provider_id": b.key.ID}, 5000000), "stake "+b.name)
 	}
 	for i := 0; i < 4; i++ {
 		v := &prov{name: fmt.Sprintf("v%d", i+1)}
